@@ -114,6 +114,11 @@ func (c *Ctx) checkHistC01x(h hist, cases *[]mcase) {
 func (c *Ctx) c01Payloads() {
 	var strs []string
 	strs = append(strs, strDict...)
+	// text that spells a namespace name or a relationship type the reader translates (strict -> transitional), and
+	// other text that looks like markup the package layer handles
+	strs = append(strs, "http://purl.oclc.org/ooxml/spreadsheetml/main", "see http://purl.oclc.org/ooxml/officeDocument/relationships for details",
+		"http://purl.oclc.org/ooxml/drawingml/main", "xmlns=\"http://purl.oclc.org/ooxml/spreadsheetml/main\"", "http://schemas.openxmlformats.org/spreadsheetml/2006/main",
+		"<c r=\"A1\"><v>1</v></c>", "]]>", "<![CDATA[x]]>", "&amp;", "&#10;", "<?xml version=\"1.0\"?>", "mc:Ignorable=\"x14ac\"", "xml:space=\"preserve\"")
 	for _, n := range []int{32766, 32767, 32768} {
 		strs = append(strs, strings.Repeat("a", n), strings.Repeat("é", n), strings.Repeat("😀", n/2)+"_x0041_")
 	}
@@ -345,6 +350,7 @@ func runC01(c *Ctx) {
 	c.c01ColAttrs()
 	c.c01RowHeights()
 	c.c01Formulas()
+	c.c01WorkbookOps(60)
 	c.R.Notes = append(c.R.Notes, fmt.Sprintf("+colattrs %.1fs", time.Since(t0).Seconds()))
 	c.c01Payloads()
 	c.R.Notes = append(c.R.Notes, fmt.Sprintf("+payloads %.1fs", time.Since(t0).Seconds()))
@@ -542,5 +548,56 @@ func (c *Ctx) c01Formulas() {
 				c.Fail("oracle", "C01_fixpoint", desc, "formulas changed by the second save+open: "+firstDiff(o0, o2), "")
 			}
 		})
+	}
+}
+
+// sheet-collection histories (new, delete, move, rename incl. other spellings of the name, visibility, active sheet,
+// copy, cell writes, scoped names) followed by the whole-workbook comparison before saving / after save+open
+func (c *Ctx) c01WorkbookOps(n int) {
+	fixed := [][]wop{
+		{{K: "N", A: "Budget"}, {K: "T", A: "Budget"}, {K: "R", A: "budget", B: "Costs"}},
+		{{K: "T", A: "Sheet1"}, {K: "R", A: "sheet1", B: "Sheet1"}},
+		{{K: "N", A: "S2"}, {K: "T", A: "S2"}, {K: "R", A: "S2", B: "s2"}, {K: "T", A: "S2"}},
+		{{K: "N", A: "S2"}, {K: "N", A: "Q3"}, {K: "T", A: "Q3"}, {K: "M", A: "Q3", B: "Sheet1"}, {K: "R", A: "q3", B: "First"}, {K: "D", A: "s2"}},
+	}
+	for i := 0; i < n+len(fixed); i++ {
+		var ops []wop
+		if i < len(fixed) {
+			ops = fixed[i]
+		} else {
+			ns := 1
+			for j := 0; j < 3+c.Rng.Intn(10); j++ {
+				o := c.c16Op(ns, true)
+				if o.K == "N" {
+					ns++
+				}
+				ops = append(ops, o)
+			}
+		}
+		c.guard("C01_no_panic", ops, func() {
+			st := &c16state{f: excelize.NewFile(), scoped: map[string]int{}}
+			defer st.f.Close()
+			for _, o := range ops {
+				_ = st.apply(o)
+			}
+			for k, sh := range st.f.GetSheetList() {
+				st.f.SetCellValue(sh, "B2", fmt.Sprintf("content of sheet %d", k))
+				st.f.SetCellHyperLink(sh, "B2", "https://example.com/"+strconv.Itoa(k), "External")
+			}
+			c.Count("workbook-ops", len(ops) > 2, fmt.Sprint(ops))
+			before := workbookObservation(st.f, 4, 4)
+			g, err := reopen(st.f)
+			if err != nil {
+				c.Fail("oracle", "C01_roundtrip", ops, "save/open failed: "+err.Error(), "")
+				return
+			}
+			defer g.Close()
+			if after := workbookObservation(g, 4, 4); after != before {
+				c.Fail("oracle", "C01_roundtrip", ops, "workbook observation differs after save+open: "+firstDiff(before, after), "")
+			}
+		})
+		if len(c.R.Failures) >= 3 {
+			return
+		}
 	}
 }
